@@ -26,6 +26,8 @@ fn gen(t: &mut Tape) -> (DiffCase, Cfg, Labels) {
     let mut o = GenOpts::default_full();
     o.max_hunks = 3;
     o.max_lines = 6;
+    // (merge-conflict regions in combined diffs, also as the very first lines of a hunk)
+    o.allow_conflict = true;
     let plain = t.chance(1, 10);
     let case = if plain {
         let mut c = gen_plain_case(t, &o);
